@@ -156,7 +156,9 @@ def do_replay(mod, path: str) -> int:
         traceback.print_exc()
         emit(f"HARNESS-ERROR: cannot read replay file {path}")
         return 2
-    out = mod.replay(part, case)
+    from vlib.hyp import guard
+
+    out = guard(lambda c: mod.replay(part, c))(case)
     viol = out.get("violation")
     if viol:
         emit(f"replay {path}: {viol['kind']}: {viol['detail']}")
@@ -175,7 +177,9 @@ def _replay_file(mod_name, path):
     mod = importlib.import_module(mod_name)
     with open(path) as fh:
         data = json.load(fh)
-    out = mod.replay(data["part"], data["case"])
+    from vlib.hyp import guard
+
+    out = guard(lambda c: mod.replay(data["part"], c))(data["case"])
     viol = out.get("violation")
     return {"path": path, "part": data["part"], "case": data["case"], "expect": data.get("expect", "ok"),
             "violation": jsonable(viol) if viol else None}
